@@ -357,6 +357,34 @@ def structured_cases(ctx):
     designator needs) against the critical designator values"""
     stride = 3 if ctx.tier == "quick" else 1
     k = 0
+    # week 53: the years where the gap to the next 53-week year is longest
+    # (7 years around the non-leap centuries), from the reference
+    long_gap = []
+    for y in range(1880, 2320):
+        if R.weeks_in_year(MODE, y) == 53:
+            nxt = next(z for z in range(y + 1, y + 12)
+                       if R.weeks_in_year(MODE, z) == 53)
+            if nxt - y >= 7:
+                long_gap.append(y + 1)
+    for y in long_gap:
+        y0 = R.days_before_year(MODE, y)
+        for doy in range(0, R.year_len(MODE, y), 9):
+            k += 1
+            if (k + ctx.seed) % stride or not ctx.mine(k // stride):
+                continue
+            inst = (y0 + doy) * 86400 + (k * 7919) % 86400
+            rep = gen.REPS[k % 3]
+            off = gen.OFFSET_POOL[k % 6]
+            local = inst + (off[0] * 60 + off[1]) * 60
+            rd, sod = divmod(local, 86400)
+            pkw = gen.date_kwargs(MODE, rep, rd)
+            pkw.update({"hour_of_day": sod // 3600,
+                        "minute_of_hour": sod % 3600 // 60,
+                        "second_of_minute": sod % 60})
+            pkw.update(gen.zone_kwargs(off))
+            yield {"op": "add", "order": "t+p" if k % 2 else "p+t",
+                   "t": {"truncated": True, "week_of_year": 53,
+                         "day_of_week": 1 + k % 7}, "p": pkw, "t_zone": None}
     for y in (2019, 2020, 2100):
         y0 = R.days_before_year(MODE, y)
         for doy in range(R.year_len(MODE, y)):
@@ -428,3 +456,13 @@ def workload(ctx, repo):
         if k % 397 == 0:
             ctx.sample(case)
         run_case(ctx, repo, case)
+        if k % 4 == 0:
+            # history: the same t applied to the same instant written in
+            # another offset / representation
+            off2 = gen.rand_offset(rng, wide=False)
+            twin = dict(case)
+            twin["p"] = gen.tp_from_instant(rng, MODE, inst, offset=off2,
+                                            allow_2400=False)
+            ctx.case = twin
+            ctx.ev("cases.twin")
+            run_case(ctx, repo, twin)
